@@ -322,6 +322,18 @@ def s_implies(a, b):
 
 # ----------------------------------------------------------------------------------------------
 # path context
+def budget_ms(ms):
+    """Wall-clock solver budgets are scaled with the machine's load, so that a verdict does not flip to `undecided` when
+    other jobs share the cores (the budget bounds work, not elapsed time)."""
+    import os
+
+    try:
+        load = os.getloadavg()[0] / max(1, os.cpu_count() or 1)
+    except OSError:
+        load = 1.0
+    return int(ms * min(16.0, max(1.0, 1.5 * load)))
+
+
 # ----------------------------------------------------------------------------------------------
 class PathCtx:
     """One execution path. Decisions are replayed from `decisions`; new forks push alternatives."""
@@ -332,7 +344,7 @@ class PathCtx:
         self.alternatives = []
         self.pc = []
         self.solver = z3.Solver()
-        self.solver.set("timeout", feas_timeout_ms)
+        self.solver.set("timeout", budget_ms(feas_timeout_ms))
         self.counter = itertools.count()
         self.epoch = 0
         self.trace = []  # (label, decision) for path signatures
@@ -478,7 +490,7 @@ def explore(run, max_paths=20000, time_limit_s=600, feas_timeout_ms=3000, shard=
     while work:
         if n >= max_paths:
             raise Budget("more than %d paths" % max_paths)
-        if time.time() - t0 > time_limit_s:
+        if time.time() - t0 > budget_ms(time_limit_s * 1000) / 1000.0:
             raise Budget("exploration time limit %ss" % time_limit_s)
         dec = work.pop()
         ctx = PathCtx(dec, feas_timeout_ms=feas_timeout_ms)
